@@ -1,5 +1,5 @@
 import UralModel.Props.C06Whole
-import UralModel.Props.C04Lower
+import UralModel.Props.C04Spec
 /-!
 # C06 — "fingerprint_url ignores everything normalize_url ignores", as theorems `fp (T u) = fp u`
 
@@ -18,7 +18,7 @@ around, lower-case escapes, letter case anywhere, a redirect that is followed). 
 at `fpOpts` (`lowercase := true`, the language filter) + the bridge `fp_string_of_partsG`.
 
 Explicit default port and letter case of the host are instances of `fp_port_string` and
-`fp_case_string` (`Props/C06Whole.lean`); surrounding white space / control characters need no
+`fp_case_string` (`Props/C06Whole.lean`); the leading `amp-`: `fp_amp_dash_string`; surrounding white space / control characters need no
 grammar (`fp_clean_string`).  `platform_aware` is off.
 -/
 set_option linter.unusedSimpArgs false
@@ -101,6 +101,24 @@ theorem fp_irrelevant_label_string (puny : Str → Str) (hpl : PunyLaws puny) (t
     fingerprintUrlString puny id trie s u' = fingerprintUrlString puny id trie s u :=
   fp_string_of_partsG puny trie s g _ u u' hg hg' hport
     (C04.partsG_irrelevant_label puny hpl fpOpts rfl g lab hne hdot hlen hx hlab hpct hpct')
+
+/-- **a leading `amp-` is ignored**, under the hypotheses of `C04.norm_amp_dash_string`: `hcanon` (the
+idna step does not treat the prefixed first label differently: first label not punycode, D20),
+`hdec` / `honce` (the host behind the prefix is decoded and does not itself start with `amp-` once
+its irrelevant labels are gone: the prefix is cut once, D19), `hdf` (per-domain filter chosen alike) -/
+theorem fp_amp_dash_string (puny : Str → Str) (trie : SNode Str) (s : Bool) (g : UrlG)
+    (hne : g.host ≠ []) (hpct : '%' ∉ g.host)
+    (hcanon : canonHost puny (ampDash ++ lower g.host) = ampDash ++ canonHost puny (lower g.host))
+    (hdec : ∀ x ∈ splitOn (canonHost puny (lower g.host)) '.', decodePunycodeHostname puny x = x)
+    (honce : startsWith (afterSub fpOpts (canonHost puny (lower g.host))) ampDash = false)
+    (hdf : domainFilter (hostKey puny (some (ampDash ++ lower g.host))) =
+      domainFilter (hostKey puny (some (lower g.host))))
+    (u u' : Str) (hg : InClassOf true g (lower u))
+    (hg' : InClassOf true { g with host := ampDash ++ g.host } (lower u')) (hport : portVal g.port ≠ none) :
+    fingerprintUrlStringSplit puny id trie s u' = fingerprintUrlStringSplit puny id trie s u ∧
+    fingerprintUrlString puny id trie s u' = fingerprintUrlString puny id trie s u :=
+  fp_string_of_partsG puny trie s g _ u u' hg hg' hport
+    (C04.partsG_amp_dash puny fpOpts rfl g hne hpct hcanon hdec honce hdf)
 
 /-- **a trailing slash is ignored**, also after an empty path -/
 theorem fp_trailing_slash_string (puny : Str → Str) (trie : SNode Str) (s : Bool) (g : UrlG)
@@ -363,6 +381,7 @@ example :
     InClassOf true { exG with ui := some "user:pw".toList } (lower "http://User:PW@shop.a.com/p?x=1".toList) ∧
     InClassOf true { exG with host := "www".toList ++ '.' :: exG.host } (lower "http://WWW.shop.a.com/p?x=1".toList) ∧
     InClassOf true { exG with path := exG.path ++ ['/'] } (lower "http://shop.a.com/p/?x=1".toList) ∧
+    InClassOf true { exG with host := ampDash ++ exG.host } (lower "http://AMP-shop.a.com/p?x=1".toList) ∧
     InClassOf true { exG with path := exG.path ++ '/' :: "%49ndex.html".toList }
       (lower "http://shop.a.com/p/%49ndex.HTML?x=1".toList) ∧
     InClassOf true { exG with fragment := some "top".toList } (lower "http://shop.a.com/p?x=1#Top".toList) ∧
@@ -373,10 +392,14 @@ example :
   refine ⟨inClassOf_intro ?_ ?_ ?_ ?_, inClassOf_intro ?_ ?_ ?_ ?_, inClassOf_intro ?_ ?_ ?_ ?_,
     inClassOf_intro ?_ ?_ ?_ ?_, inClassOf_intro ?_ ?_ ?_ ?_, inClassOf_intro ?_ ?_ ?_ ?_,
     inClassOf_intro ?_ ?_ ?_ ?_, inClassOf_intro ?_ ?_ ?_ ?_, inClassOf_intro ?_ ?_ ?_ ?_,
-    inClassOf_intro ?_ ?_ ?_ ?_⟩ <;> decide +kernel
+    inClassOf_intro ?_ ?_ ?_ ?_, inClassOf_intro ?_ ?_ ?_ ?_⟩ <;> decide +kernel
 
 example :
     isIrrLabel true (lower "www".toList) = true ∧
+    canonHost id (ampDash ++ lower exG.host) = ampDash ++ canonHost id (lower exG.host) ∧
+    (∀ x ∈ splitOn (canonHost id (lower exG.host)) '.', decodePunycodeHostname id x = x) ∧
+    startsWith (afterSub fpOpts (canonHost id (lower exG.host))) ampDash = false ∧
+    domainFilter (hostKey id (some (ampDash ++ lower exG.host))) = domainFilter (hostKey id (some (lower exG.host))) ∧
     ('/' ∉ lower (unquotePath "%49ndex.html".toList)) ∧
     splitextRoot (lower (unquotePath "%49ndex.html".toList)) = "index".toList ∧
     splitextRoot (unquotePath "%49ndex.html".toList) ≠ "index".toList ∧
